@@ -17,5 +17,5 @@ for (pl, tl, cl, tier) in [(2, 2, 1, 'qt'), (3, 2, 0, 'qt'), (2, 3, 1, 't'), (3,
                          desc='result == parallelograms in construction order, reversed iff negatively oriented; no signed overflow'))
 OBLIGATIONS += [
   O('C19.a-empty', 'c19_mink.cpp', 'harness_minkowski_empty', replace=ISPOS, unwind=6, bound='empty pattern / empty path', desc='empty input gives empty result'),
-  O('C19.b-union-nonzero', 'c19_mink.cpp', 'harness_minkowski_union', replace=ENG, nsw=True, unwind=6, bound='2x2, closed', desc='MinkowskiSum/Diff hand the 4 quads as subjects to Execute(Union, NonZero) and return its result'),
+  O('C19.b-union-nonzero', 'c19_mink.cpp', 'harness_minkowski_union', replace=ENG, nsw=True, unwind=6, bound='2x2, closed', desc='MinkowskiSum/Diff hand the 4 quads as subjects to Execute(Union, NonZero) and return its result; a second call uses a clipper holding nothing from the first'),
 ]
